@@ -45,8 +45,7 @@ def homeSym : String := "48"
 /-- `c17.req` / `c17.two`: MakeRequest against the home peer that answers `rpc_error code msg`; the data centres of
 `over` are peers that answer pong, or — `second = some (code2, msg2)` — an error the client returns. The
 model: the decision of `onRpcError`; a migration is followed by one more request at the new address. -/
-def reqOutcome (over : DCList) (c : Int) (m : Bytes) (second : Option (Int × Bytes)) (value : String := "") : String :=
-  let dcl := setDCList Gen.defaultDCList over
+def reqOutcomeOn (dcl : DCList) (c : Int) (m : Bytes) (second : Option (Int × Bytes)) (value : String := "") : String :=
   match onRpcError dcl c m with
   | .ok (e, .returned) => s!"outcome=returned {showErr e} reqs={homeSym}:1"
   | .ok (e, .dcNotFound n) => s!"outcome=notfound dc={n} {showErr e} reqs={homeSym}:1"
@@ -62,6 +61,22 @@ def reqOutcome (over : DCList) (c : Int) (m : Bytes) (second : Option (Int × By
   | .ok (_, .panic site) => s!"panic:{site}"
   | .err k => s!"err:{k}"
   | .panic site => s!"panic:{site}"
+
+def reqOutcome (over : DCList) (c : Int) (m : Bytes) (second : Option (Int × Bytes)) (value : String := "") : String :=
+  reqOutcomeOn (setDCList Gen.defaultDCList over) c m second value
+
+/-- the calls of a `c17.hist` history: `id:SYM,…` or `-` (an empty argument) per `SetDCList` call; `C`, the place of
+`CreateConnection` (at most once), is no call — the table does not depend on when the connection is made -/
+def parseCalls? (s : String) : Option (List DCList) :=
+  let toks := s.splitOn "/"
+  if (toks.filter (· == "C")).length > 1 then none else
+  (toks.filter (· != "C")).mapM fun t => if t == "-" then some [] else
+    match parseDcs? t with
+    | some [] => none
+    | some d => if (d.map (·.1)).eraseDups.length = d.length then some d else none
+    | none => none
+
+def storeOk (s : String) : Bool := ["ok", "fail", "slow", "file", "gone"].contains s
 
 /-- the second answer of `c17.req2` must be an error the client returns (not PHONE_MIGRATE_n) -/
 def secondReturned (c2 : Int) (m2 : Bytes) : Bool :=
@@ -93,6 +108,15 @@ def handle : List String → String
     match parseDcs? dcs, code.toInt?, fromHex? msg with
     | some over, some c, some m =>
       if c < -2147483648 || c > 2147483647 then "bad-op" else reqOutcome over c m none s!" value={kind}"
+    | _, _, _ => "bad-op"
+  -- the migration under a faulty / slow / file session store and after a history of SetDCList calls: the table is
+  -- `dclistAfter` (theorem `dclist_after_calls`: the right-biased union of the default list and all arguments); the
+  -- session store is no argument of the decision
+  | ["c17.hist", store, calls, code, msg] =>
+    if !storeOk store then "bad-op" else
+    match parseCalls? calls, code.toInt?, fromHex? msg with
+    | some cs, some c, some m =>
+      if cs.isEmpty ∧ calls ≠ "C" then "bad-op" else reqOutcomeOn (dclistAfter Gen.defaultDCList cs) c m none
     | _, _, _ => "bad-op"
   | ["c17.req", dcs, code, msg] =>
     match parseDcs? dcs, code.toInt?, fromHex? msg with
